@@ -22,7 +22,7 @@ type GenOpt struct {
 	NoAudience  bool
 }
 
-var CmdSegs = []string{"foo", "foobar", "fo", "bar", "a", "ab", "é"}
+var CmdSegs = []string{"foo", "foobar", "fo", "bar", "a", "ab", "é", "λόγος", "λόγοσ", "σ", "ς"}
 
 func drawPrin(t *rapid.T, label string) int {
 	return rapid.IntRange(0, NPrincipals-1).Draw(t, label)
@@ -239,6 +239,23 @@ func DrawConforming(t *rapid.T, o GenOpt) Case {
 			l.Decoded = rapid.Bool().Draw(t, "ldec")
 		}
 		c.Links = append(c.Links, l)
+	}
+	// the same delegation (same CID) may legitimately serve two hops of a chain
+	switch rapid.IntRange(0, 7).Draw(t, "reuse") {
+	case 0: // a self-delegation link walked twice
+		for i, l := range c.Links {
+			if l.Iss == l.Aud {
+				dup := l
+				c.Links = append(c.Links[:i+1], append([]Link{dup}, c.Links[i+1:]...)...)
+				break
+			}
+		}
+	case 1: // ping-pong: [B<-C (token X), C<-B, B<-C (token X again), ...]
+		if len(c.Links) <= 4 {
+			first := c.Links[0]
+			back := Link{Iss: first.Aud, Aud: first.Iss, Sub: first.Sub, Cmd: first.Cmd, Nonce: 99, Nbf: first.Nbf, Exp: first.Exp, Decoded: first.Decoded}
+			c.Links = append([]Link{first, back}, c.Links...)
+		}
 	}
 	if o.Times && rapid.Bool().Draw(t, "invexp") {
 		c.Inv.Exp = i64(rapid.SampledFrom(HourOffsets).Draw(t, "iexp"))
